@@ -1718,7 +1718,7 @@ class Imply(Any):
         if type(condition) == str or issubclass(condition.__class__, puan.variable):
             condition = All(condition)
         self.condition = condition.negate()
-        self.consequence = consequence
+        self.consequence = puan.variable(consequence) if type(consequence) == str else consequence
         super().__init__(self.condition, self.consequence, variable=variable)
 
     @staticmethod
